@@ -148,3 +148,12 @@ Theorem qrw_failed_lock_as_if_not_called_refuted : exists lsA lsB sA sB oA,
   ls sB = 2 /\ qu sB = [] /\ qs sB = [] /\ qholds sB 2%nat = true.
 Proof. exact qrw_failed_lock_as_if_not_called_refuted_thm. Qed.
 Print Assumptions qrw_failed_lock_as_if_not_called_refuted.
+
+(* the E3 replay of the BLOCKING path (C06_QE3B.v <-> harness/C06/qrw_e3b.cpp: lock(mode, timeout) / try_lock / unlock between
+   OS threads, every atomic operation, enqueue, notify, timer expiry a scheduled point): whatever the scripts, the schedule and
+   the bound, the lock state the replay ends in (and, by the same induction, every state it passes) is reachable in the step
+   relation the theorems above quantify over — each harness point is a stutter or ONE qstep with a well-formed label *)
+Theorem qrw_e3b_replay_reachable : forall scripts bound sched,
+  qreach (b_q (fst (fst (qb_run scripts bound sched)))).
+Proof. exact qb_run_qreach_thm. Qed.
+Print Assumptions qrw_e3b_replay_reachable.
